@@ -200,9 +200,9 @@ func calculateChargeSum(charges []*Charge, cur currency.Code) *num.Amount {
 }
 
 func (m *Charge) round(cur currency.Code) {
-	// Default round to currency, or use base if present
+	// Default round to currency, or use the base's precision if it is higher
 	e := cur.Def().Subunits
-	if m.Base != nil {
+	if m.Base != nil && m.Base.Exp() > e {
 		e = m.Base.Exp()
 	}
 	m.Amount = m.Amount.RescaleDown(e)
